@@ -280,6 +280,9 @@ def _job(chunk):
 
 
 def replay_case(case):
+    if "api" in case:
+        from . import apiuse
+        return apiuse.replay_case(case, ("C15",))
     return [v for v in replay_all(case) if v["oracle"].startswith("C15.")]
 
 
@@ -339,6 +342,8 @@ def check(tier="quick", seed=0, workers=None, only=None):
     from . import backends
     bst, binfo = backends.run_for(tier, seed, workers, None) if not only else (engine.Stats(bound=1), {})
     viols += common.collect(bst, ("C15",))
+    from . import apiuse
+    viols += apiuse.run_all(("C15",))[1] if not only else []
     st.evaluations += bst.evaluations
     st.nontrivial_outcomes |= bst.nontrivial_outcomes
     by_stage = {}
